@@ -30,7 +30,7 @@ ASSUMPTIONS = ["index and best probability must be equal (1e-9 rel); the best pa
 
 
 def gen_case(rng, i, tier):
-    case = mcase.gen_mcase(rng, width="maybe", tighten_p=0.2, sparse_p=0.4, max_obs=8)
+    case = mcase.gen_mcase(rng, families=gen.FAMILIES_ALL, width="maybe", tighten_p=0.2, sparse_p=0.4, max_obs=8)
     if len(case["trace"]) < 2:
         case["trace"] = case["trace"] + [[case["trace"][0][0] + 0.3, case["trace"][0][1] + 0.2]]
     n = len(case["trace"])
